@@ -72,7 +72,7 @@ CHECKS = {
  'C03': dict(
     category='exploration', design_ref='4/C03, 3.7',
     technique='differential runtime oracle against lazy reference generators; exhaustive enumeration of short well-formed operator sequences; instrumented source counting pulls',
-    text='Every well-formed operator sequence of length <=2 (quick) / <=3 (thorough) over 35 parameter-instantiated operators x 5 input classes is executed on the real Stream (iteration / collect / drain, each under the hang watchdog) and compared with an independent sequential reference: values, order, terminal condition (exhaustion vs exception type+args at the same position); plus seeded programs up to length 7 and one-to-one chains on an unbounded instrumented source (0 pulls at construction; pulls <= k + sum of look-ahead).',
+    text='Every well-formed operator sequence of length <=2 (quick) / <=3 (thorough) over 50 parameter-instantiated operators x 5 input classes is executed on the real Stream (iteration / collect / drain, each under the hang watchdog) and compared with an independent sequential reference: values, order, terminal condition (exhaustion vs exception type+args at the same position); plus seeded programs up to length 7 and one-to-one chains on an unbounded instrumented source (0 pulls at construction; pulls <= k + sum of look-ahead).',
     note='Trusted: the reference generators (vlib/refstream.py); groupby groups are materialised right after groupby; shuffle compared as a multiset.'),
  'C10': dict(
     category='exploration', design_ref='4/C10, 3.2',
@@ -176,6 +176,13 @@ WIDENED3 = {
 }
 for _k, _v in WIDENED3.items():
     CHECKS[_k]['text'] = CHECKS[_k]['text'].rstrip() + ' Round 6 (DESIGN 14): ' + _v
+
+WIDENED4 = {
+ 'C03': 'parmap operators that carry a `preprocessor` which rejects elements (return_exceptions on / off, return_x on / off) in the operator alphabet and in the reference.',
+ 'C14': 'two managers alive at once: proxies of the second manager\'s objects stored in, passed to and fetched from objects hosted by the first (harness and an agent process), calls through every travelled proxy.',
+}
+for _k, _v in WIDENED4.items():
+    CHECKS[_k]['text'] = CHECKS[_k]['text'].rstrip() + ' Round 7 (DESIGN 14): ' + _v
 
 NOT_YET = {}
 
